@@ -357,13 +357,18 @@ func (x *dexec) doWrite(op *Op) string {
 		fb := x.wr.faults
 		cs := x.wrCallsStart()
 		x.armWriterLimit(2 + len(p))
+		// the caller's chunk buffer is reused (overwritten) after the call
+		q := append(make([]byte, 0, len(p)+8), p...)
 		pn, hang := x.call(x.budget(len(p)), func() {
 			if x.buf != nil {
-				n, err = x.buf.Write(p)
+				n, err = x.buf.Write(q)
 			} else {
-				n, err = x.dec.Write(p)
+				n, err = x.dec.Write(q)
 			}
 		})
+		for i := range q {
+			q[i] ^= 0x5a
+		}
 		if pn != "" {
 			x.libPanic(fmt.Sprintf("Write(%d bytes)", len(p)), pn, hang)
 		}
